@@ -150,6 +150,9 @@ def check(ctx):
                 other = resolve_consts(prog, pv.operand_term(t["args"][1], bb, "term"))
                 while other[0] in ("ref", "deref"):
                     other = other[1]
+                if is_call(other) and not other[2] and other[1] in prog.fns and prog.fns[other[1]].impl_trait == "core::default::Default":
+                    # `key.kty == KeyType::default()`: the value that (crate-local, argument-less) default returns
+                    other = resolve_consts(prog, Prov(prog.fns[other[1]]).return_term())
                 if lv == ("field", res, "kty") and other == ("aggr", "common::RegisteredLabel", "Assigned", (("0", ("aggr", "iana::KeyType", "Reserved", ())),)):
                     kty_err = o
     dflt = prog.trait_method("core::default::Default", "common::RegisteredLabel<iana::KeyType>", "default")
